@@ -291,6 +291,7 @@ def run_map(case):
 
 # --------------------------------------------------------------------------
 WF_TEMPLATE = '''from gwf import Workflow, AnonymousTarget
+from templates import imported_tpl  # the templates.py NEXT TO this file, wherever gwf is started from
 
 gwf = Workflow(%(wfkw)s)
 
@@ -308,6 +309,7 @@ gwf.map(Klass(), ['1'])
 gwf.map(tpl, ['n1'], name='named')
 gwf.map(tpl, [{'x': 'f1'}], name=lambda idx, t: 'fn_%%d' %% idx)
 gwf.target('consumer', inputs=['out/b.res', 'out/direct.res'], outputs=['out/final.res']) << 'echo final'
+gwf.target_from_template('imported', imported_tpl())
 # the workflow's own glob helpers list files relative to the workflow's working directory, not the invoking one
 for _i, _p in enumerate(sorted(gwf.glob('in/g*.txt'))):
     gwf.target('glob%%d' %% _i, inputs=[_p], outputs=['out/glob%%d.res' %% _i]) << 'echo g'
@@ -344,6 +346,13 @@ def build_project(case, base):
         fname = "flow.py"
     with open(os.path.join(root, fname), "w") as f:
         f.write(src)
+    with open(os.path.join(root, "templates.py"), "w") as f:
+        f.write("from gwf import AnonymousTarget\n\ndef imported_tpl():\n    return AnonymousTarget(inputs=[], outputs=['out/imported.res'], options={}, spec='echo real')\n")
+    # decoy modules of the same name in the directories gwf is started from
+    for dd in (os.path.join(base, "elsewhere", "x"), os.path.join(root, "sub", "deep")):
+        os.makedirs(dd, exist_ok=True)
+        with open(os.path.join(dd, "templates.py"), "w") as f:
+            f.write("from gwf import AnonymousTarget\n\ndef imported_tpl():\n    return AnonymousTarget(inputs=[], outputs=['out/DECOY.res'], options={}, spec='echo decoy')\n")
     # source files where the workflow means them
     items = [i if isinstance(i, str) else (i[0] if isinstance(i, list) else i["x"]) for i in case["items"]]
     for d, xs in ((wf_wd, ["a", "g1", "g2", "h1"]), (tpl_wd, ["b", "k1", "n1", "f1"] + items)):
@@ -356,7 +365,7 @@ def build_project(case, base):
             os.utime(p, ns=(gen.BASE_T * 10**9, gen.BASE_T * 10**9))
     # expected outputs
     exp = {os.path.join(wf_wd, "out/direct.res"), os.path.join(wf_wd, "out/final.res"), os.path.join(wf_wd, "out/up.res")}
-    exp |= {os.path.join(wf_wd, "out", x) for x in ("glob0.res", "glob1.res", "iglob0.res", "shell0.res", "shell1.res")}
+    exp |= {os.path.join(wf_wd, "out", x) for x in ("glob0.res", "glob1.res", "iglob0.res", "shell0.res", "shell1.res", "imported.res")}
     # decoys: files of the same pattern below the directories gwf is invoked from
     for dd, names in ((os.path.join(base, "elsewhere", "x", "in"), ["g7.txt", "g8.txt", "g9.txt", "h7.txt", "h8.txt"]), (os.path.join(root, "sub", "deep", "in"), ["g5.txt", "h5.txt", "h6.txt"])):
         os.makedirs(dd, exist_ok=True)
@@ -371,7 +380,7 @@ def build_project(case, base):
         with open(p, "w") as f:
             f.write("src")
         os.utime(p, ns=(gen.BASE_T * 10**9, gen.BASE_T * 10**9))
-    exp_deps = {"consumer": ["direct", "fromtpl"] if consumer_dep_ok else ["direct"], "up": ["direct"], "direct": [], "fromtpl": [], "glob0": [], "glob1": [], "iglob0": [], "shell0": [], "shell1": []}
+    exp_deps = {"consumer": ["direct", "fromtpl"] if consumer_dep_ok else ["direct"], "up": ["direct"], "direct": [], "fromtpl": [], "glob0": [], "glob1": [], "iglob0": [], "shell0": [], "shell1": [], "imported": []}
     return root, {"expected_outputs": exp, "wf_wd": wf_wd, "tpl_wd": tpl_wd, "expected_deps": exp_deps}
 
 
@@ -399,19 +408,19 @@ def run_where(case):
                 cwd, pre = elsewhere, ["-f", "../../proj/" + fn + suffix]
             before = gen.snapshot(base)
             obs = {}
-            r = cli.gwf(cwd, pre + ["-b", "slurm", "info"], env, audit=False)
+            r = cli.gwf(cwd, pre + ["-b", "slurm", "info"], env, audit=False, cwd_on_path=True)
             obs["info_rc"] = r.rc
             try:
                 inf = json.loads(r.out.replace(base, "@BASE@"))  # every observation lives in its own temporary base
                 obs["info"] = {k: (sorted(v["dependencies"]), sorted(v["dependents"]), v["inputs"], v["outputs"]) for k, v in inf.items()}
             except ValueError:
                 obs["info"] = "unparsable: " + (r.err or r.out)[-300:]
-            r = cli.gwf(cwd, pre + ["-b", "slurm", "status"], env, audit=False)
+            r = cli.gwf(cwd, pre + ["-b", "slurm", "status"], env, audit=False, cwd_on_path=True)
             obs["status_rc"] = r.rc
             obs["status"] = sorted(cli.parse_status(r.out))
             r = cli.gwf(cwd, pre + ["config", "set", "foo", "1"], env, audit=False)
             obs["config_rc"] = r.rc
-            r = cli.gwf(cwd, pre + ["-b", "slurm", "touch"], env, audit=False)
+            r = cli.gwf(cwd, pre + ["-b", "slurm", "touch"], env, audit=False, cwd_on_path=True)
             obs["touch_rc"] = r.rc
             after = gen.snapshot(base)
             d = gen.snap_diff(before, after)
